@@ -4,6 +4,9 @@
 #include <occa/internal/core/device.hpp>
 #include <occa/internal/core/memory.hpp>
 #include <occa/internal/utils/sys.hpp>
+#ifdef LIBOCCA_OCCA_VERIF
+#include <occa/internal/verif.hpp>
+#endif
 
 namespace occa {
   memory::memory() :
@@ -48,6 +51,9 @@ namespace occa {
       return;
     }
     modeMemory->removeMemoryRef(this);
+#ifdef LIBOCCA_OCCA_VERIF
+    verif::yield(verif::ptAfterRemoveMemoryRef);
+#endif
     if (modeMemory->modeMemory_t::needsFree()) {
       delete modeMemory;
       modeMemory = NULL;
